@@ -661,6 +661,8 @@ def unit_semantic(chk, program):
                     v = None
                 if isinstance(v, A.AOpaque) and v.what in converters:
                     cv = v.what
+                elif isinstance(v, A.AFunc) and getattr(v.fn, 'name', None) in converters and getattr(v.fn, 'name', None) not in menv.funcs:
+                    cv = v.fn.name          # a converter of utils reached through a table / an alias: followed to its definition by the module environment
             if cv is not None:
                 args = [it.expr(a, env) for a in call.args]
                 return A.AObj(converted_by=cv, of=args[0] if len(args) == 1 else None, line=call.lineno)
